@@ -25,6 +25,9 @@ def one(d):
     if fired:
         bad.append(d)
 
+match = sys.argv_backup[sys.argv_backup.index('--match') + 1].split(',') if '--match' in sys.argv_backup else ['']
+_one = one
+one = lambda d: _one(d) if any(m in os.path.basename(d) for m in match) else None
 with ThreadPoolExecutor(jobs) as ex:
     list(ex.map(one, sorted(glob.glob(os.path.join(ROOT, 'seeded', 'neg_*')), reverse='--reverse' in sys.argv_backup)))
 sys.exit(1 if bad else 0)
